@@ -452,6 +452,20 @@ def run_lsp(c):
     return res
 
 
+def along_recording(c, log):
+    """alpha -> cost(p + alpha*xi) with the same numpy expression as _linesearch_powell's `myfunc`"""
+    p = np.array(c["p"]); xi = np.array(c["xi"])
+
+    def f(alpha):
+        try:
+            y = boxed_eval(c["expr"], c["box"], vec(p + alpha * xi))
+        except ZeroDivisionError:
+            raise DslError()
+        log.append((float(alpha), float(y)))
+        return y
+    return f
+
+
 def lsp_request(c):
     return ("C08 brent (mode along) (cost (scalar %s)) (box %s) (plus0 false) (p %s) (xi %s) (brack none) (tol %s) (maxiter %d) (bmax 1000)"
             % (dsl.expr_sexp(c["expr"]), box_sexp(c["box"]), fl(c["p"]), fl(c["xi"]), f2b(c["tol"]), c["maxiter"]))
@@ -482,3 +496,86 @@ def lsp_monitor(c, real, hist):
     if all(v == 0.0 for v in c["xi"]):
         hadd(hist, "linesearch:zero-direction")
     return out
+
+
+# ------------------------------------------------------------------------------------ the published routines (scipy)
+def _scipy():
+    try:
+        import scipy.optimize as SP
+        return SP
+    except Exception:
+        return None
+
+
+def same_log(a, b):
+    return len(a) == len(b) and all(same_float(p[0], q[0]) and same_float(p[1], q[1]) for p, q in zip(a, b))
+
+
+def scipy_bracket_monitor(c, real, hist):
+    """the installed scipy.optimize.bracket (an independent descendant of the published routine) must evaluate exactly
+    the same abscissae and, when it accepts the triple, return the same one; it additionally REJECTS triples that are
+    not valid brackets (BracketError), which the 0.6.0 routine returns as they are"""
+    SP = _scipy()
+    if SP is None or real["exc"] in ("dsl",) or real["exc"].startswith("other:"):
+        hadd(hist, "scipy:unavailable-or-skipped"); return []
+    log2 = []
+    f2 = recording(c["expr"], c["box"], log2)
+    old = np.seterr(all="ignore")
+    try:
+        r = SP.bracket(f2, xa=c["xa"], xb=c["xb"], grow_limit=c["grow"], maxiter=c["maxiter"])
+        sp = {"exc": "none", "xs": [float(v) for v in r[:3]], "fs": [float(v) for v in r[3:6]], "n": int(r[6])}
+    except RuntimeError as exc:
+        sp = {"exc": "BracketError" if type(exc).__name__ == "BracketError" else "tooMany"}
+    except Exception as exc:
+        sp = {"exc": type(exc).__name__}
+    finally:
+        np.seterr(**old)
+    hadd(hist, "scipy:bracket:%s/%s" % (real["exc"], sp["exc"]))
+    if not same_log(real["log"], log2):
+        return [("bracket/differs-from-scipy-bracket", "evaluations differ: %s ; scipy.optimize.bracket: %s (exceptions %s / %s)"
+                 % (log_diff(real["log"], log2), len(log2), real["exc"], sp["exc"]))]
+    if (real["exc"] == "tooMany") != (sp["exc"] == "tooMany"):
+        return [("bracket/differs-from-scipy-bracket", "maxiter=%d: bracket -> %s, scipy.optimize.bracket -> %s" % (c["maxiter"], real["exc"], sp["exc"]))]
+    if real["exc"] == "none" and sp["exc"] == "none":
+        if not (same_vec(real["xs"], sp["xs"]) and same_vec(real["fs"], sp["fs"]) and real["n"] == sp["n"]):
+            return [("bracket/differs-from-scipy-bracket", "bracket -> %r %r n=%d ; scipy.optimize.bracket -> %r %r n=%d"
+                     % (real["xs"], real["fs"], real["n"], sp["xs"], sp["fs"], sp["n"]))]
+    return []
+
+
+def scipy_brent_monitor(tag, c, real, hist, func_factory, brack):
+    """scipy.optimize.brent on the same function: the same (xmin, fval, iterations) and the same abscissae in the same
+    order - the 0.6.0 routine evaluates the bracket's middle point a second time when Brent's loop starts, scipy reuses
+    the value; where scipy rejects the bracket (BracketError) its evaluations must be a prefix"""
+    SP = _scipy()
+    if SP is None or real["exc"] in ("dsl", "badBrack") or real["exc"].startswith("other:"):
+        hadd(hist, "scipy:unavailable-or-skipped"); return []
+    log2 = []
+    f2 = func_factory(log2)
+    old = np.seterr(all="ignore")
+    try:
+        r = SP.brent(f2, brack=brack, tol=c["tol"], full_output=1, maxiter=c["maxiter"])
+        sp = {"exc": "none", "xmin": float(r[0]), "fval": float(r[1]), "iter": int(r[2]), "funcalls": int(r[3])}
+    except Exception as exc:
+        sp = {"exc": type(exc).__name__}
+    finally:
+        np.seterr(**old)
+    hadd(hist, "scipy:%s:%s/%s" % (tag, real["exc"], sp["exc"]))
+    key = "%s/differs-from-scipy-brent" % tag
+    if real["exc"] == "none" and sp["exc"] == "none":
+        i = len(real["log"]) - real["funcalls"]
+        ded = real["log"][:i] + real["log"][i + 1:] if 0 <= i < len(real["log"]) else real["log"]
+        if not (same_float(real["xmin"], sp["xmin"]) and same_float(real["fval"], sp["fval"]) and real["iter"] == sp["iter"]):
+            return [(key, "brent -> xmin=%r fval=%r iterations=%d ; scipy.optimize.brent -> xmin=%r fval=%r iterations=%d"
+                     % (real["xmin"], real["fval"], real["iter"], sp["xmin"], sp["fval"], sp["iter"]))]
+        if not same_log(ded, log2):
+            return [(key, "evaluations differ (after removing the repeated middle point): %s" % log_diff(ded, log2))]
+        return []
+    if sp["exc"] in ("BracketError", "RuntimeError", "ValueError") or real["exc"] != "none":
+        # one side stopped in the bracketing phase: what it evaluated until then must agree with the other side
+        n = min(len(log2), len(real["log"]))
+        if not same_log(real["log"][:n], log2[:n]):
+            return [(key, "bracketing phase differs: %s (exceptions %s / %s)" % (log_diff(real["log"][:n], log2[:n]), real["exc"], sp["exc"]))]
+        if real["exc"] == "tooMany" and sp["exc"] != "RuntimeError":
+            return [(key, "brent raised 'Too many iterations', scipy.optimize.brent -> %s" % sp["exc"])]
+    return []
